@@ -84,8 +84,23 @@ def sortStrings (l : List String) : List String := l.foldr insertSorted []
 def filterExcluded (tagNames excluded : List String) : List String :=
   tagNames.filter (fun t => !excluded.contains t)
 
-/-- `determineTagNames` for the named dimensions (the `*` flag is kept separately). -/
+/-- the loop of `uniqueSorted` (group_by.go) after its first element: `last` is `unique[len(unique)-1]`. -/
+def uniqueAfter (last : String) : List String → List String
+  | [] => []
+  | s :: rest => if last == s then uniqueAfter last rest else s :: uniqueAfter s rest
+
+/-- `uniqueSorted`: the repeated elements of a sorted list dropped (`fix:` a050cea). -/
+def uniqueSorted : List String → List String
+  | [] => []
+  | s :: rest => s :: uniqueAfter s rest
+
+/-- `determineTagNames` for the named dimensions (the `*` flag is kept separately): sorted, a dimension named twice
+kept once, the excluded ones dropped. -/
 def determineTagNames (dims excluded : List String) : List String :=
+  filterExcluded (uniqueSorted (sortStrings dims)) excluded
+
+/-- `determineTagNames` before `fix:` a050cea: sorted, repetitions kept (counterexample theorem only). -/
+def determineTagNamesOld (dims excluded : List String) : List String :=
   filterExcluded (sortStrings dims) excluded
 
 /-- `computeTagNames`. -/
